@@ -6,6 +6,7 @@ import (
 	"os"
 	"os/exec"
 	"reflect"
+	"runtime"
 	"strings"
 	"syscall"
 	"testing"
@@ -228,6 +229,44 @@ func TestOptions(t *testing.T) {
 		defer x.Close()
 		r.Emit("oop", "proto", "xpair+xreq", "op", "device", "r", mangos.Device(a, x), "want", "ErrBadProto")
 		r.Emit("oop", "proto", "nil", "op", "device", "r", mangos.Device(nil, nil), "want", "ErrClosed")
+		// a raw socket with a cooked one, in both orders and for two patterns: refused, and nothing started - no
+		// forwarder is left draining the raw socket behind the application's back
+		fwd := func() int {
+			time.Sleep(30 * time.Millisecond)
+			buf := make([]byte, 4<<20)
+			buf = buf[:runtime.Stack(buf, true)]
+			return strings.Count(string(buf), "go.nanomsg.org/mangos/v3.forwarder(")
+		}
+		base := fwd()
+		rawOf := func(name string) mangos.Socket {
+			for _, p := range rawProtos {
+				if p.name == name {
+					return protocol.MakeSocket(p.mk())
+				}
+			}
+			panic(name)
+		}
+		cookedOf := func(name string) mangos.Socket {
+			var sk mangos.Socket
+			switch name {
+			case "req":
+				sk, _ = req.NewSocket()
+			case "rep":
+				sk, _ = rep.NewSocket()
+			default:
+				sk = rawOf(name)
+			}
+			return sk
+		}
+		for _, pr := range [][2]string{{"xpair", "pair"}, {"xrep", "req"}, {"xreq", "rep"}} {
+			raw, cooked := rawOf(pr[0]), cookedOf(pr[1])
+			r.Emit("oop", "proto", pr[0]+"+"+pr[1], "op", "device", "r", mangos.Device(raw, cooked), "want", "ErrNotRaw")
+			r.Emit("oopside", "proto", pr[0]+"+"+pr[1], "started", fwd()-base)
+			r.Emit("oop", "proto", pr[1]+"+"+pr[0], "op", "device", "r", mangos.Device(cooked, raw), "want", "ErrNotRaw")
+			r.Emit("oopside", "proto", pr[1]+"+"+pr[0], "started", fwd()-base)
+			_ = raw.Close()
+			_ = cooked.Close()
+		}
 	})
 	// ipc peer credentials of a peer that is another process, running under another group id (needs root)
 	if os.Getuid() == 0 {
